@@ -571,15 +571,38 @@ def run_C19(ctx):
     run_heap(ctx)
 
 
+def compat(ctx):
+    """Operand compatibility of union / merge (Gen_Compat): operands built with BuildHasherSeeded whose seeds differ in the
+    low half, the high half or both, or whose configuration differs in one parameter; judged by P_Compat."""
+    w = ctx.sub("compat")
+    c = {"EMIT": "FALSE"}
+    ctx.e1.append(vlib.model_check("Gen_Compat", c, ["Inv"], ctx.sub("e1"), workers=1))
+    c["EMIT"] = "TRUE"
+    gen, st = vlib.generate("Gen_Compat", c, w, "cases.out")
+    p = os.path.join(w, "p.ndjson")
+    stats = vlib.vh(["compat", "all", "--gen", gen, "--out", p], w)
+    n, rej = vlib.adjudicate("P_Compat", p, w, parallel=1)
+    ctx.judged += n
+    ctx.executed += stats["cases"]
+    ctx.e2_transitions += stats["cases"]
+    add_rejects(ctx, [(t, cl) for t, cl in rej if not cl.startswith("X.")], p, "compat", "P_Compat")
+    extra = sorted(set(cl for _, cl in rej if cl.startswith("X.")))
+    ctx.extra["operand_compatibility"] = {"cases": stats["cases"], "rejected": len(rej), "extra_mismatches": extra}
+    for cl in extra:
+        log("EXTRA (operand compatibility, not a verdict): %s" % cl)
+
+
 def run_C06(ctx):
     """merge/union equals processing both streams: Bloom, cuckoo, quotient filter (incl. algebra), CMS, HLL."""
     ctx.lite = True
+    compat(ctx)
     run_C06_filters(ctx)
     run_cms(ctx)
     run_hll(ctx)
 
 
 def run_C01(ctx):
+    compat(ctx)
     run_bl(ctx)
     run_ck(ctx)
     run_C13(ctx)
@@ -1292,13 +1315,13 @@ PROPS = {
                     "a permuted+duplicated replay into a fresh sketch and a reconstruction from registers; non-trivial = tagged (raises a non-zero register, absorbed by a larger rank, maximal rank)",
             "assumptions": ["TLC and the TLA+ P-spec P_HLL judge every executed call", "64-bit hashes are handled as four 16-bit limbs in TLA+"]},
     "C20": {"run": run_C20, "level": "exploration",
-            "rule": "every document of the TLA+ document model Gen_HLLSerde (b x registers length x fill x field layout incl. omissions, duplicates, unknown and ill-typed fields) "
+            "rule": "every document of the TLA+ document model Gen_HLLSerde (b x registers length x fill x field layout incl. omissions, duplicates, unknown and ill-typed fields; five layouts also in the positional / array form) "
                     "rendered as JSON and fed to serde_json; accepted sketches are exercised (count, add_hashed(0), add_hashed(MAX), add, merge) under catch_unwind; "
                     "round trips of sketches from E3 scenarios on all b; non-trivial = invalid documents and valid ones with random/maximal register bytes",
             "assumptions": ["serde_json as the concrete format", "TLC and the TLA+ P-spec P_HLLSerde judge every outcome"]},
     "C09": {"run": run_lossy, "level": "model_checking",
-            "rule": "E1: every stream over 3-4 symbols up to the listed length for widths 1..5, every prefix, thresholds on twelfths; E2: every transition replayed; "
-                    "E3: streams to 4*10^4 with widths to 500, epsilons 3/10, 1/3, 2/7 ..., boundary-straddling adversarial streams, recorded at window boundaries +-1 and every 97th prefix; "
+            "rule": "E1: every stream over 3-4 symbols up to the listed length for widths 1..5, every prefix, thresholds on twelfths; E2: every transition replayed, on a counter built by with_width and again on one built by with_epsilon(3/5 | 2/5 | 3/10 | 2/9) (non-integer 1/epsilon); "
+                    "E3: streams to 4*10^4 with widths to 500, epsilons 3/10, 1/3, 2/7 ..., boundary-straddling adversarial streams, recorded at window boundaries +-1 and every 97th prefix, every recorded call also validated against the mechanism spec (Trace_Lossy); every width 1..160 with clear and reuse; "
                     "non-trivial = tagged (window-end prune removes entries, element re-enters after being pruned, boundary that keeps everything)",
             "assumptions": ["TLC and the TLA+ P-spec P_Lossy judge every executed call", "thresholds are taken on twelfths and epsilons on small rationals so that float ties are exact ties"]},
     "C10": {"run": run_heap, "level": "model_checking",
@@ -1348,10 +1371,10 @@ PROPS = {
     "C07": {"run": run_C07, "level": "exploration",
             "rule": "every point of the TLA+ parameter plane Gen_Sizing (n in {1,2,3,7,50,1000[,20000]} x p = a/c incl. p > 1/2, 1 - 2^-j, 2^-j) constructed with with_properties / with_properties_4 / _8, "
                     "n distinct inserts, queries, len(); judged by P_Sizing: k >= 1, m >= 1, no panic, no Full, no false negative, 2b/2^l <= p, capacity >= n, and gross measured clauses with a 6-sigma margin on 20 000 probes "
-                    "(Bloom false positives <= 1.3 p for n >= 1000, cuckoo <= p, Bloom len() within 10% for n >= 1000 at <= 50% occupancy); the quotient-filter rate clause is the exact-set invariant of C13 (re-run here); "
+                    "(Bloom false positives <= 1.3 p for n >= 1000, cuckoo <= p, Bloom len() within 10% for n >= 1000 at <= 50% occupancy), plus the textbook Bloom rate (1 - e^(-kn/m))^k of the constructor's own k and m against 1.3 p for n >= 50 (computed by the harness, compared by TLC in milli-nats); the quotient-filter rate clause is the exact-set invariant of C13 (re-run here); "
                     "every point is a distinct configuration",
             "assumptions": ["the Bloom rate and len() clauses are statistical: they are only checked grossly (single hasher seed per VERIF_SEED, 20 000 probes, 6-sigma margin, n >= 1000), so a sizing error below roughly 1.5x is not detected",
-                            "constructor argument contracts (Gen_Constructors) are run here as extra coverage and never affect the verdict"]},
+                            "constructor argument contracts (Gen_Constructors) and Extend::extend = repeated add (Gen_Extend) are run here as extra coverage and never affect the verdict"]},
     "C12": {"run": lambda ctx: (run_ck(ctx), run_C13(ctx)), "level": "model_checking", "rule": CK_RULE + "; quotient filter as C13", "assumptions": CK_ASSUME},
     "C13": {"run": run_C13, "level": "model_checking",
             "rule": "E1: every reachable state of the quotient-filter M-spec for the listed (q,r); E2: every emitted transition executed "
